@@ -201,7 +201,7 @@ func TestP1Tuples(t *testing.T) {
 		}
 	}
 	maxArity := ev.Total(2, 3)
-	rec.Rule(fmt.Sprintf("interpreter with MaxOps = %d: every name in systemdict (%d) and every CIDInit operator (%d, inside begincmap) applied to every operand tuple of arity 0..%d from a hostile pool of %d values (boundary and huge integers, reals, strings incl. 65536 bytes, empty/nested/self-referential arrays, a procedure whose 12 slots all hold itself, dictionaries incl. systemdict and errordict, the file object, mark, operator objects, StandardEncoding). Each program runs in a child process under a 6 GB address-space limit and a 10 s watchdog (confirmed alone with 30 s; to bound the run time a batch is given up after 3 hangs or deaths and at most two are confirmed per run). Oracle: the call returns a result or an error - no panic, no process abort, no hang. Non-trivial: every tuple (the operator is reached by construction); distinct by program text.", interpMaxOps, len(sys), len(cid), maxArity, len(pool)))
+	rec.Rule(fmt.Sprintf("interpreter with MaxOps = %d: every name in systemdict (%d) and every CIDInit operator (%d, inside begincmap) applied to every operand tuple of arity 0..%d from a hostile pool of %d values (boundary and huge integers, reals, strings incl. 65536 bytes, empty/nested/self-referential arrays, a procedure whose 12 slots all hold itself, dictionaries incl. systemdict and errordict, the file object, mark, operator objects, StandardEncoding). Each program runs in a child process under a 6 GB address-space limit and a 10 s watchdog (confirmed alone with 30 s; to bound the run time a batch is given up after 3 hangs or deaths and at most two are confirmed per run). Plus CMap block choreography: every sequence of up to %d events over begincmap, endcmap and the begin/end operators (with a valid entry) of every pair of the seven block kinds, i.e. all out-of-order interleavings. Oracle: the call returns a result or an error - no panic, no process abort, no hang. Non-trivial: every tuple (the operator is reached by construction); distinct by program text.", interpMaxOps, len(sys), len(cid), maxArity, len(pool), ev.Total(4, 5)))
 	var cases []*hcase
 	k := 0
 	addOps := func(ops []string, prefix string) {
@@ -239,6 +239,63 @@ func TestP1Tuples(t *testing.T) {
 	}
 	addOps(sys, "")
 	addOps(cid, "/CIDInit /ProcSet findresource begin begincmap")
+	// CMap block choreography: every sequence of 1..L events over
+	// {begincmap, endcmap, `1 beginK1`, `<entry K1> endK1`, `1 beginK2`,
+	// `<entry K2> endK2`} for every pair of block kinds (K1 = K2:
+	// four events), so that every out-of-order interleaving of the
+	// begin*/end* pairs with begincmap/endcmap occurs (operators of one
+	// block closed by another, blocks left open over endcmap, ...).
+	kinds := []struct{ name, entry string }{
+		{"codespacerange", "<00> <ff>"}, {"cidchar", "<01> 7"}, {"cidrange", "<02> <09> 7"},
+		{"notdefchar", "<03> 1"}, {"notdefrange", "<04> <05> 1"}, {"bfchar", "<06> <0041>"}, {"bfrange", "<07> <08> [<0041> /x]"},
+	}
+	maxLen := ev.Total(4, 5)
+	for i1, k1 := range kinds {
+		for i2, k2 := range kinds {
+			if i2 < i1 {
+				continue // the event set of (K2, K1) is that of (K1, K2)
+			}
+			events := []string{"begincmap", "endcmap", "1 begin" + k1.name, k1.entry + " end" + k1.name}
+			minOther := 0
+			if i1 != i2 {
+				events = append(events, "1 begin"+k2.name, k2.entry+" end"+k2.name)
+				minOther = 1 // sequences without an event of K2 are covered by the pair (K1, K1)
+			}
+			var seq []int
+			var walk func()
+			walk = func() {
+				if len(seq) > 0 {
+					other, own := 0, 0
+					for _, e := range seq {
+						if e >= 4 {
+							other++
+						} else if e >= 2 {
+							own++
+						}
+					}
+					if other < minOther || (minOther > 0 && own == 0) {
+						// covered by the pair (K1, K1) or (K2, K2)
+					} else if k++; ev.Mine(k) {
+						parts := []string{"/CIDInit /ProcSet findresource begin 12 dict begin"}
+						for _, e := range seq {
+							parts = append(parts, events[e])
+						}
+						parts = append(parts, "/CMapName /X def CMapName currentdict /CMap defineresource pop end end")
+						cases = append(cases, &hcase{Target: "interp", Data: []byte(strings.Join(parts, " "))})
+					}
+				}
+				if len(seq) == maxLen || (i1 != i2 && len(seq) == maxLen-1) {
+					return
+				}
+				for e := range events {
+					seq = append(seq, e)
+					walk()
+					seq = seq[:len(seq)-1]
+				}
+			}
+			walk()
+		}
+	}
 	for i := 0; i < len(cases); i += 20000 {
 		end := min(i+20000, len(cases))
 		runBatch(rec, cases[i:end], nil)
